@@ -1,7 +1,160 @@
-//! Further operations
-use serde_json::Value;
+//! Serde (C17): default string form, JSON-number adapters, token streams
+use std::fmt::Display;
+
+use bigdecimal::BigDecimal;
+use serde::de::value::{Error as ValueError, F32Deserializer, F64Deserializer, I128Deserializer, I16Deserializer, I32Deserializer, I64Deserializer, I8Deserializer, StrDeserializer, StringDeserializer, U128Deserializer, U16Deserializer, U32Deserializer, U64Deserializer, U8Deserializer};
+use serde::de::IntoDeserializer;
+use serde::{Deserialize, Serialize};
+use serde_json::{json, Value};
+use num_traits::ToPrimitive;
+
+use crate::wire::*;
+
+#[derive(Serialize, Deserialize)]
+struct JsonNum {
+    #[serde(with = "bigdecimal::serde::json_num")]
+    v: BigDecimal,
+}
+#[derive(Serialize, Deserialize)]
+struct JsonNumOpt {
+    #[serde(with = "bigdecimal::serde::json_num_option")]
+    v: Option<BigDecimal>,
+}
+
+/// A Serializer that records the single string token BigDecimal emits (everything else is an error)
+struct StrRecorder;
+#[derive(Debug)]
+struct RecErr(String);
+impl Display for RecErr {
+    fn fmt(&self, f: &mut std::fmt::Formatter) -> std::fmt::Result { write!(f, "{}", self.0) }
+}
+impl std::error::Error for RecErr {}
+impl serde::ser::Error for RecErr {
+    fn custom<T: Display>(msg: T) -> Self { RecErr(msg.to_string()) }
+}
+macro_rules! unsupported {
+    ($($f:ident($t:ty)),*) => { $( fn $f(self, _v: $t) -> Result<String, RecErr> { Err(RecErr(concat!("unexpected token ", stringify!($f)).into())) } )* };
+}
+impl serde::Serializer for StrRecorder {
+    type Ok = String;
+    type Error = RecErr;
+    type SerializeSeq = serde::ser::Impossible<String, RecErr>;
+    type SerializeTuple = serde::ser::Impossible<String, RecErr>;
+    type SerializeTupleStruct = serde::ser::Impossible<String, RecErr>;
+    type SerializeTupleVariant = serde::ser::Impossible<String, RecErr>;
+    type SerializeMap = serde::ser::Impossible<String, RecErr>;
+    type SerializeStruct = serde::ser::Impossible<String, RecErr>;
+    type SerializeStructVariant = serde::ser::Impossible<String, RecErr>;
+    fn serialize_str(self, v: &str) -> Result<String, RecErr> { Ok(v.to_string()) }
+    unsupported!(serialize_bool(bool), serialize_i8(i8), serialize_i16(i16), serialize_i32(i32), serialize_i64(i64),
+                 serialize_u8(u8), serialize_u16(u16), serialize_u32(u32), serialize_u64(u64), serialize_f32(f32), serialize_f64(f64),
+                 serialize_char(char), serialize_bytes(&[u8]));
+    fn serialize_none(self) -> Result<String, RecErr> { Err(RecErr("none".into())) }
+    fn serialize_some<T: ?Sized + Serialize>(self, _v: &T) -> Result<String, RecErr> { Err(RecErr("some".into())) }
+    fn serialize_unit(self) -> Result<String, RecErr> { Err(RecErr("unit".into())) }
+    fn serialize_unit_struct(self, _n: &'static str) -> Result<String, RecErr> { Err(RecErr("unit_struct".into())) }
+    fn serialize_unit_variant(self, _n: &'static str, _i: u32, _v: &'static str) -> Result<String, RecErr> { Err(RecErr("unit_variant".into())) }
+    fn serialize_newtype_struct<T: ?Sized + Serialize>(self, _n: &'static str, _v: &T) -> Result<String, RecErr> { Err(RecErr("newtype".into())) }
+    fn serialize_newtype_variant<T: ?Sized + Serialize>(self, _n: &'static str, _i: u32, _v: &'static str, _x: &T) -> Result<String, RecErr> { Err(RecErr("newtype_variant".into())) }
+    fn serialize_seq(self, _l: Option<usize>) -> Result<Self::SerializeSeq, RecErr> { Err(RecErr("seq".into())) }
+    fn serialize_tuple(self, _l: usize) -> Result<Self::SerializeTuple, RecErr> { Err(RecErr("tuple".into())) }
+    fn serialize_tuple_struct(self, _n: &'static str, _l: usize) -> Result<Self::SerializeTupleStruct, RecErr> { Err(RecErr("tuple_struct".into())) }
+    fn serialize_tuple_variant(self, _n: &'static str, _i: u32, _v: &'static str, _l: usize) -> Result<Self::SerializeTupleVariant, RecErr> { Err(RecErr("tuple_variant".into())) }
+    fn serialize_map(self, _l: Option<usize>) -> Result<Self::SerializeMap, RecErr> { Err(RecErr("map".into())) }
+    fn serialize_struct(self, _n: &'static str, _l: usize) -> Result<Self::SerializeStruct, RecErr> { Err(RecErr("struct".into())) }
+    fn serialize_struct_variant(self, _n: &'static str, _i: u32, _v: &'static str, _l: usize) -> Result<Self::SerializeStructVariant, RecErr> { Err(RecErr("struct_variant".into())) }
+}
+
+fn dres<E: Display>(r: Result<BigDecimal, E>) -> Value {
+    match r {
+        Ok(x) => json!({"d": dec_to_json(&x)}),
+        Err(e) => { let _ = e.to_string(); json!({"err": "de"}) }
+    }
+}
+fn ores<E: Display>(r: Result<Option<BigDecimal>, E>) -> Value {
+    match r {
+        Ok(Some(x)) => json!({"d": dec_to_json(&x)}),
+        Ok(None) => json!({"none": 1}),
+        Err(e) => { let _ = e.to_string(); json!({"err": "de"}) }
+    }
+}
 
 pub fn exec_more(ev: &Value) -> Value {
     let op = ev["op"].as_str().expect("op");
-    panic!("HARNESS: unknown op {}", op)
+    let form = ev.get("form").and_then(|f| f.as_str()).unwrap_or("");
+    match op {
+        // serialize, record the document, deserialize it again
+        "serde_roundtrip" => {
+            let a = json_to_dec(&ev["a"]);
+            match form {
+                "json_string" => match serde_json::to_string(&a) {
+                    Err(_) => json!({"ser_err": 1}),
+                    Ok(doc) => json!({"doc": text_to_json(&doc), "back": dres(serde_json::from_str::<BigDecimal>(&doc))}),
+                },
+                "json_value" => match serde_json::to_value(&a) {
+                    Err(_) => json!({"ser_err": 1}),
+                    Ok(v) => { let doc = v.to_string(); json!({"doc": text_to_json(&doc), "back": dres(serde_json::from_value::<BigDecimal>(v))}) }
+                },
+                "token" => match a.serialize(StrRecorder) {
+                    Err(_) => json!({"ser_err": 1}),
+                    Ok(s) => {
+                        let de: StrDeserializer<ValueError> = s.as_str().into_deserializer();
+                        json!({"doc": text_to_json(&format!("\"{}\"", s)), "back": dres(BigDecimal::deserialize(de))})
+                    }
+                },
+                "json_num" => match serde_json::to_string(&JsonNum { v: a.clone() }) {
+                    Err(_) => json!({"ser_err": 1}),
+                    Ok(doc) => json!({"doc": text_to_json(&doc), "back": dres(serde_json::from_str::<JsonNum>(&doc).map(|w| w.v))}),
+                },
+                "json_num_option" => match serde_json::to_string(&JsonNumOpt { v: Some(a.clone()) }) {
+                    Err(_) => json!({"ser_err": 1}),
+                    Ok(doc) => json!({"doc": text_to_json(&doc), "back": ores(serde_json::from_str::<JsonNumOpt>(&doc).map(|w| w.v))}),
+                },
+                _ => panic!("HARNESS: unknown serde_roundtrip form {}", form),
+            }
+        }
+        "serde_none" => match serde_json::to_string(&JsonNumOpt { v: None }) {
+            Err(_) => json!({"ser_err": 1}),
+            Ok(doc) => json!({"doc": text_to_json(&doc), "back": ores(serde_json::from_str::<JsonNumOpt>(&doc).map(|w| w.v))}),
+        },
+        // deserialize a JSON document (the value position of the wrapper for the adapters)
+        "de_json" => {
+            let doc = json_to_text(&ev["doc"]);
+            match form {
+                "plain" => dres(serde_json::from_str::<BigDecimal>(&doc)),
+                "plain_value" => match serde_json::from_str::<serde_json::Value>(&doc) {
+                    Ok(v) => dres(serde_json::from_value::<BigDecimal>(v)),
+                    Err(_) => json!({"err": "json"}),
+                },
+                "json_num" => dres(serde_json::from_str::<JsonNum>(&format!("{{\"v\":{}}}", doc)).map(|w| w.v)),
+                "json_num_option" => ores(serde_json::from_str::<JsonNumOpt>(&format!("{{\"v\":{}}}", doc)).map(|w| w.v)),
+                _ => panic!("HARNESS: unknown de_json form {}", form),
+            }
+        }
+        // tokens handed over by other formats
+        "de_token" => {
+            let ty = ev["ty"].as_str().expect("ty");
+            macro_rules! int_tok {
+                ($t:ty, $d:ident, $conv:ident) => {{
+                    let v = json_to_bigint(&ev["v"]).$conv().and_then(|x| <$t>::try_from(x).ok()).expect("token value in range");
+                    let de: $d<ValueError> = v.into_deserializer();
+                    dres(BigDecimal::deserialize(de))
+                }};
+            }
+            match ty {
+                "i8" => int_tok!(i8, I8Deserializer, to_i128), "i16" => int_tok!(i16, I16Deserializer, to_i128),
+                "i32" => int_tok!(i32, I32Deserializer, to_i128), "i64" => int_tok!(i64, I64Deserializer, to_i128),
+                "i128" => int_tok!(i128, I128Deserializer, to_i128),
+                "u8" => int_tok!(u8, U8Deserializer, to_u128), "u16" => int_tok!(u16, U16Deserializer, to_u128),
+                "u32" => int_tok!(u32, U32Deserializer, to_u128), "u64" => int_tok!(u64, U64Deserializer, to_u128),
+                "u128" => int_tok!(u128, U128Deserializer, to_u128),
+                "f32" => { let f = f32::from_bits(json_to_bigint(&ev["bits"]).to_u32().unwrap()); let de: F32Deserializer<ValueError> = f.into_deserializer(); dres(BigDecimal::deserialize(de)) }
+                "f64" => { let f = f64::from_bits(json_to_bigint(&ev["bits"]).to_u64().unwrap()); let de: F64Deserializer<ValueError> = f.into_deserializer(); dres(BigDecimal::deserialize(de)) }
+                "str" => { let s = json_to_text(&ev["text"]); let de: StrDeserializer<ValueError> = s.as_str().into_deserializer(); dres(BigDecimal::deserialize(de)) }
+                "string" => { let s = json_to_text(&ev["text"]); let de: StringDeserializer<ValueError> = s.into_deserializer(); dres(BigDecimal::deserialize(de)) }
+                _ => panic!("HARNESS: unknown token type {}", ty),
+            }
+        }
+        _ => crate::exec9::exec_more(ev),
+    }
 }
